@@ -199,7 +199,7 @@ structure Sys where
   exitCodeSet : Bool := false            -- `exitCodeOnce`
   wg : Nat := 0
   sdWg : Nat := 0
-  depWg : List Nat := []                 -- by name (stopper's local wait group)
+  depWg : List Nat := []                 -- by instance: the local wait group of that instance's stopper
   appCancelled : Bool := false
   crashed : Bool := false
   launchClock : Nat := 0
@@ -225,6 +225,13 @@ def Sys.setPc (s : Sys) (t : Tid) (pc : Pc) : Sys :=
 def Sys.emit (s : Sys) (o : Obs) : Sys := { s with obs := s.obs ++ [o] }
 def Sys.spawn (s : Sys) (k : Kind) : Sys := { s with threads := s.threads ++ [{ kind := k }] }
 def Sys.note (s : Sys) (e : GateEv) : Sys := { s with gate := e :: s.gate }
+
+/-- `wg.Add(1)` / `wg.Done()` on the wait group of the stopper of instance `i` (a table padded with
+    zeros on demand: a stopper's wait group is a local variable, created empty) -/
+def wgAdd (l : List Nat) (i : Nat) : List Nat :=
+  (l ++ List.replicate (i + 1 - l.length) 0).modify i (· + 1)
+def wgDone (l : List Nat) (i : Nat) : List Nat := l.modify i (· - 1)
+def Sys.wgOf (s : Sys) (i : IId) : Nat := s.depWg.getD i 0
 
 /-- the wake condition of a wait on instance `d` for condition `c` (what `enabledThr` tests) -/
 def latchB (s : Sys) (c : Cond) (d : IId) : Bool :=
@@ -635,8 +642,7 @@ def armSdPrepared (s : Sys) (t : Tid) (order : List IId) (k : SdK) : Sys :=
 
 def armStopperBegin (s : Sys) (t : Tid) (i : IId) : Sys :=
   let deps := revDepsOf s (s.nameOf i)
-  let n := s.nameOf i
-  let s := deps.foldl (fun s j => ({ s with depWg := s.depWg.modify n (· + 1) }).spawn (.depwaiter i j)) s
+  let s := deps.foldl (fun s j => ({ s with depWg := wgAdd s.depWg i }).spawn (.depwaiter i j)) s
   s.setPc t (.depWg i)
 
 def stepStopper (s : Sys) (t : Tid) (i : IId) : Pc → Sys
@@ -652,7 +658,7 @@ def stepWaiter (s : Sys) (t : Tid) (i : IId) : Pc → Sys
 
 def stepDepwaiter (s : Sys) (t : Tid) (o i : IId) : Pc → Sys
   | .begin => s.setPc t (.waitDoneThen i)
-  | .waitDoneThen _ => ({ s with depWg := s.depWg.modify (s.nameOf o) (· - 1) }).setPc t .finished
+  | .waitDoneThen _ => ({ s with depWg := wgDone s.depWg o }).setPc t .finished
   | _ => s
 
 /-! API threads -/
@@ -738,7 +744,7 @@ def enabledThr (s : Sys) (t : Tid) : Bool :=
     | _ => false
   | .stopWaitKill i _ => (s.inst i).stopCtx ≠ .armed
   | .sdWg _ => s.sdWg = 0
-  | .depWg i => s.depWg.getD (s.nameOf i) 0 = 0
+  | .depWg i => s.wgOf i = 0
   | .waitDoneThen i => (s.inst i).done
   | .runWg => s.wg = 0
   | _ => true
@@ -819,7 +825,6 @@ def init (gran : Gran) (ordered : Bool) (cfgs : List Cfg) : Sys :=
   { gran, ordered, cfgs,
     pstates := cfgs.map fun c => { status := if c.deferred then .disabled else .pending },
     running := cfgs.map fun _ => none,
-    doneM := cfgs.map fun _ => none,
-    depWg := cfgs.map fun _ => 0 }
+    doneM := cfgs.map fun _ => none }
 
 end PC.Sup
